@@ -15,7 +15,7 @@ import (
 // memberKinds: members hit / miss / mistype the operand paths @.a, @.b, @.*, @[0]. The i-th
 // member of a container is instantiated with variant i so that all members of one container
 // are pairwise distinct and a selection can be read back as a set of positions.
-const c09NumKinds = 12
+const c09NumKinds = 13
 
 func c09Member(kind, i int) interface{} {
 	z := float64(100 + i)
@@ -44,6 +44,9 @@ func c09Member(kind, i int) interface{} {
 		return []interface{}{1.0, z}
 	case 11:
 		return map[string]interface{}{"a": true, "b": "a", "z": z}
+	case 12:
+		// the float adjacent to the literal 1 used by the comparison atoms
+		return map[string]interface{}{"a": 1.0000000000000002, "b": 0.9999999999999999, "z": z}
 	}
 	panic("bad kind")
 }
@@ -490,8 +493,8 @@ func init() {
 			"relations between runs of the implementation only: sel(A&&B)=∩, sel(A||B)=∪, !path and != are complements, mirrored operand/operator pairs agree, <=/>= against a number literal = strict ∪ ==, parentheses transparent; a result that is not a sub-sequence of the members is itself a violation",
 		},
 		Bounds: map[string]string{
-			"quick":    "atoms: 12 existence tests, 204 comparisons (6 operators x {number,string,bool,null literal, @.a, @.b, $.a, $.b} both orders, grammar-legal), 3 regex tests; composites: A&&B and A||B over 24 atoms (1152), 5 depth-3 shapes over 5 atoms (625); containers: arrays and objects of 0..2 members over 12 member kinds, 3 members over 6 kinds, 4..6 members over 3 kinds; 15 combinations of $.a/$.b",
-			"thorough": "same atoms; depth-3 shapes over 8 atoms (2560); containers of 0..3 members over all 12 kinds, 4..6 over 3 kinds; 15 root combinations",
+			"quick":    "atoms: 12 existence tests, 204 comparisons (6 operators x {number,string,bool,null literal, @.a, @.b, $.a, $.b} both orders, grammar-legal), 3 regex tests; composites: A&&B and A||B over 24 atoms (1152), 5 depth-3 shapes over 5 atoms (625); containers: arrays and objects of 0..2 members over 13 member kinds, 3 members over 6 kinds, 4..6 members over 3 kinds; 15 combinations of $.a/$.b",
+			"thorough": "same atoms; depth-3 shapes over 8 atoms (2560); containers of 0..3 members over all 13 kinds, 4..6 over 3 kinds; 15 root combinations",
 		},
 		New:    newC09,
 		Replay: c09Replay,
